@@ -28,6 +28,9 @@
 EXTENDS Integers, Sequences, FiniteSets, TLC, Json
 
 CONSTANTS NSeg,          \* segments of the (finite, ENDLIST) stream
+          NPart,         \* part tracks (fragments x tracks) per segment, pushed one by one to the track processor
+          TokenCap,      \* capacity of the completion channel chPartTrackProcessed; 0 = sized on the segment (repaired code),
+                         \* k > 0 = fixed capacity k (the code before the repair had 10: a segment with more part tracks deadlocked)
           Fmp4,          \* TRUE: init segment + tracks known before the first segment
           Variant,       \* "ok" | "startNoSelect" (C12: start hand-off without ctx alternative)
                          \*      | "errorNoJoin" (pool cancelled but not joined on the error path)
@@ -49,9 +52,10 @@ VARIABLES pc,        \* pc[g] for g in G \cup {"run"}
           tracksSet, ended, tpSpawned,
           inCb,      \* a user callback is executing
           dlWhat,    \* what dl's pending request is: "init" | "seg" | "pl"
+          pushed, joined,   \* part tracks of the current segment pushed to tp / completion tokens consumed by the join
           scen       \* the scenario: [close, fault, tracksErr] chosen at Init
 
-vars == <<pc, alive, ret, userClosed, poolCancelled, result, outErr, nreq, ndata, queue, segNo, tokens, tracksSet, ended, tpSpawned, inCb, dlWhat, scen>>
+vars == <<pc, alive, ret, userClosed, poolCancelled, result, outErr, nreq, ndata, queue, segNo, tokens, tracksSet, ended, tpSpawned, inCb, dlWhat, pushed, joined, scen>>
 
 ClosePoints == {<<"none", 0>>, <<"any", 0>>, <<"tracks", 0>>, <<"data", 1>>, <<"data", 2>>, <<"outcome", 0>>} \cup {<<"req", k>> : k \in 0..(MaxReq - 1)}
 Faults == {<<"none", 0>>} \cup {<<f, k>> : f \in {"status", "transport", "stall"}, k \in 0..(MaxReq - 1)}
@@ -66,6 +70,7 @@ Init ==
   /\ queue = <<>> /\ segNo = 0 /\ tokens = 0
   /\ tracksSet = FALSE /\ ended = FALSE /\ tpSpawned = FALSE /\ inCb = FALSE
   /\ dlWhat = IF Fmp4 THEN "init" ELSE "seg"
+  /\ pushed = 0 /\ joined = 0
   /\ scen \in [close : ClosePoints, fault : Faults, tracksErr : BOOLEAN]
 
 CloseAt(p) == scen.close = p
@@ -74,7 +79,7 @@ CloseAt(p) == scen.close = p
 UserCloseAny ==
   /\ CloseAt(<<"any", 0>>) /\ ~userClosed
   /\ userClosed' = TRUE
-  /\ UNCHANGED <<pc, alive, ret, poolCancelled, result, outErr, nreq, ndata, queue, segNo, tokens, tracksSet, ended, tpSpawned, inCb, dlWhat, scen>>
+  /\ UNCHANGED <<pc, alive, ret, poolCancelled, result, outErr, nreq, ndata, queue, segNo, tokens, tracksSet, ended, tpSpawned, inCb, dlWhat, pushed, joined, scen>>
 
 (***************************************************************************)
 (* HTTP: "req" = the request arrives at the server (event), "resp" = the   *)
@@ -87,7 +92,7 @@ HttpArrive(g) ==
   /\ nreq' = nreq + 1
   /\ userClosed' = (userClosed \/ CloseAt(<<"req", nreq>>))
   /\ pc' = [pc EXCEPT ![g] = IF scen.fault[2] = nreq /\ scen.fault[1] # "none" THEN scen.fault[1] ELSE "resp"]
-  /\ UNCHANGED <<alive, ret, poolCancelled, result, outErr, ndata, queue, segNo, tokens, tracksSet, ended, tpSpawned, inCb, dlWhat, scen>>
+  /\ UNCHANGED <<alive, ret, poolCancelled, result, outErr, ndata, queue, segNo, tokens, tracksSet, ended, tpSpawned, inCb, dlWhat, pushed, joined, scen>>
 
 \* where a goroutine continues after a successful response
 Next1(g) ==
@@ -97,19 +102,19 @@ Next1(g) ==
 HttpFail(g) ==
   /\ pc[g] \in {"status", "transport"}
   /\ Return(g, pc[g])
-  /\ UNCHANGED <<alive, userClosed, poolCancelled, result, outErr, nreq, ndata, queue, segNo, tokens, tracksSet, ended, tpSpawned, inCb, dlWhat, scen>>
+  /\ UNCHANGED <<alive, userClosed, poolCancelled, result, outErr, nreq, ndata, queue, segNo, tokens, tracksSet, ended, tpSpawned, inCb, dlWhat, pushed, joined, scen>>
 
 \* a body that never ends: only cancellation of the request context ends it
 HttpStall(g) ==
   /\ pc[g] = "stall" /\ poolCancelled
   /\ Return(g, "cancelled")
-  /\ UNCHANGED <<alive, userClosed, poolCancelled, result, outErr, nreq, ndata, queue, segNo, tokens, tracksSet, ended, tpSpawned, inCb, dlWhat, scen>>
+  /\ UNCHANGED <<alive, userClosed, poolCancelled, result, outErr, nreq, ndata, queue, segNo, tokens, tracksSet, ended, tpSpawned, inCb, dlWhat, pushed, joined, scen>>
 
 HttpOK(g) ==
   /\ pc[g] = "resp"
   /\ \/ pc' = [pc EXCEPT ![g] = Next1(g)] /\ ret' = ret
      \/ poolCancelled /\ Return(g, "cancelled")      \* the transport may notice the cancelled context
-  /\ UNCHANGED <<alive, userClosed, poolCancelled, result, outErr, nreq, ndata, queue, segNo, tokens, tracksSet, ended, tpSpawned, inCb, dlWhat, scen>>
+  /\ UNCHANGED <<alive, userClosed, poolCancelled, result, outErr, nreq, ndata, queue, segNo, tokens, tracksSet, ended, tpSpawned, inCb, dlWhat, pushed, joined, scen>>
 
 (***************************************************************************)
 (* prim                                                                    *)
@@ -118,13 +123,13 @@ PrimSpawn ==
   /\ pc["prim"] = "spawnDl"
   /\ alive' = alive \cup {"dl"}
   /\ pc' = [pc EXCEPT !["prim"] = "waitTracks", !["dl"] = IF Fmp4 THEN "req" ELSE "spawnSp"]
-  /\ UNCHANGED <<ret, userClosed, poolCancelled, result, outErr, nreq, ndata, queue, segNo, tokens, tracksSet, ended, tpSpawned, inCb, dlWhat, scen>>
+  /\ UNCHANGED <<ret, userClosed, poolCancelled, result, outErr, nreq, ndata, queue, segNo, tokens, tracksSet, ended, tpSpawned, inCb, dlWhat, pushed, joined, scen>>
 
 \* chTracks: rendezvous sp -> prim
 TracksHandoff ==
   /\ pc["prim"] = "waitTracks" /\ pc["sp"] = "sendTracks"
   /\ pc' = [pc EXCEPT !["prim"] = "onTracks", !["sp"] = "waitStart"]
-  /\ UNCHANGED <<alive, ret, userClosed, poolCancelled, result, outErr, nreq, ndata, queue, segNo, tokens, tracksSet, ended, tpSpawned, inCb, dlWhat, scen>>
+  /\ UNCHANGED <<alive, ret, userClosed, poolCancelled, result, outErr, nreq, ndata, queue, segNo, tokens, tracksSet, ended, tpSpawned, inCb, dlWhat, pushed, joined, scen>>
 
 \* the user's OnTracks runs on prim; Close may be called from inside it
 PrimOnTracks ==
@@ -132,26 +137,26 @@ PrimOnTracks ==
   /\ inCb' = TRUE
   /\ userClosed' = (userClosed \/ CloseAt(<<"tracks", 0>>))
   /\ pc' = [pc EXCEPT !["prim"] = "onTracksRet"]
-  /\ UNCHANGED <<alive, ret, poolCancelled, result, outErr, nreq, ndata, queue, segNo, tokens, tracksSet, ended, tpSpawned, dlWhat, scen>>
+  /\ UNCHANGED <<alive, ret, poolCancelled, result, outErr, nreq, ndata, queue, segNo, tokens, tracksSet, ended, tpSpawned, dlWhat, pushed, joined, scen>>
 
 PrimOnTracksRet ==
   /\ pc["prim"] = "onTracksRet"
   /\ inCb' = FALSE
   /\ IF scen.tracksErr THEN Return("prim", "ontracks")
      ELSE pc' = [pc EXCEPT !["prim"] = "sendStart"] /\ ret' = ret
-  /\ UNCHANGED <<alive, userClosed, poolCancelled, result, outErr, nreq, ndata, queue, segNo, tokens, tracksSet, ended, tpSpawned, dlWhat, scen>>
+  /\ UNCHANGED <<alive, userClosed, poolCancelled, result, outErr, nreq, ndata, queue, segNo, tokens, tracksSet, ended, tpSpawned, dlWhat, pushed, joined, scen>>
 
 \* chStartStreaming: rendezvous prim -> sp
 StartHandoff ==
   /\ pc["prim"] = "sendStart" /\ pc["sp"] = "waitStart"
   /\ tracksSet' = TRUE
   /\ pc' = [pc EXCEPT !["prim"] = "waitEnded", !["sp"] = IF Fmp4 THEN "pull" ELSE "spawnTp"]
-  /\ UNCHANGED <<alive, ret, userClosed, poolCancelled, result, outErr, nreq, ndata, queue, segNo, tokens, ended, tpSpawned, inCb, dlWhat, scen>>
+  /\ UNCHANGED <<alive, ret, userClosed, poolCancelled, result, outErr, nreq, ndata, queue, segNo, tokens, ended, tpSpawned, inCb, dlWhat, pushed, joined, scen>>
 
 PrimEnded ==
   /\ pc["prim"] = "waitEnded" /\ ended
   /\ Return("prim", "eos")
-  /\ UNCHANGED <<alive, userClosed, poolCancelled, result, outErr, nreq, ndata, queue, segNo, tokens, tracksSet, ended, tpSpawned, inCb, dlWhat, scen>>
+  /\ UNCHANGED <<alive, userClosed, poolCancelled, result, outErr, nreq, ndata, queue, segNo, tokens, tracksSet, ended, tpSpawned, inCb, dlWhat, pushed, joined, scen>>
 
 (***************************************************************************)
 (* dl                                                                      *)
@@ -168,20 +173,20 @@ DlAfterHttp ==
             /\ dlWhat' = "pl"
        [] dlWhat = "pl" ->
             /\ pc' = [pc EXCEPT !["dl"] = "req"] /\ dlWhat' = "seg" /\ UNCHANGED <<queue, segNo>>
-  /\ UNCHANGED <<alive, ret, userClosed, poolCancelled, result, outErr, nreq, ndata, tokens, tracksSet, ended, tpSpawned, inCb, scen>>
+  /\ UNCHANGED <<alive, ret, userClosed, poolCancelled, result, outErr, nreq, ndata, tokens, tracksSet, ended, tpSpawned, inCb, pushed, joined, scen>>
 
 DlSpawnSp ==
   /\ pc["dl"] = "spawnSp"
   /\ alive' = alive \cup {"sp"}
   /\ pc' = [pc EXCEPT !["dl"] = "req", !["sp"] = IF Fmp4 THEN "sendTracks" ELSE "pull"]
   /\ dlWhat' = "seg"
-  /\ UNCHANGED <<ret, userClosed, poolCancelled, result, outErr, nreq, ndata, queue, segNo, tokens, tracksSet, ended, tpSpawned, inCb, scen>>
+  /\ UNCHANGED <<ret, userClosed, poolCancelled, result, outErr, nreq, ndata, queue, segNo, tokens, tracksSet, ended, tpSpawned, inCb, pushed, joined, scen>>
 
 \* waitUntilSizeIsBelow(ctx, 1): proceeds when at most one segment is waiting
 DlThrottle ==
   /\ pc["dl"] = "throttle" /\ Len(queue) <= 1
   /\ pc' = [pc EXCEPT !["dl"] = "req"]
-  /\ UNCHANGED <<alive, ret, userClosed, poolCancelled, result, outErr, nreq, ndata, queue, segNo, tokens, tracksSet, ended, tpSpawned, inCb, dlWhat, scen>>
+  /\ UNCHANGED <<alive, ret, userClosed, poolCancelled, result, outErr, nreq, ndata, queue, segNo, tokens, tracksSet, ended, tpSpawned, inCb, dlWhat, pushed, joined, scen>>
 
 (***************************************************************************)
 (* sp                                                                      *)
@@ -193,25 +198,30 @@ SpPull ==
      THEN ended' = TRUE /\ pc' = [pc EXCEPT !["sp"] = "waitCtx"]
      ELSE /\ ended' = ended
           /\ pc' = [pc EXCEPT !["sp"] = IF ~tracksSet THEN "sendTracks" ELSE IF ~tpSpawned THEN "spawnTp" ELSE "pushT"]
-  /\ UNCHANGED <<alive, ret, userClosed, poolCancelled, result, outErr, nreq, ndata, segNo, tokens, tracksSet, tpSpawned, inCb, dlWhat, scen>>
+  /\ UNCHANGED <<alive, ret, userClosed, poolCancelled, result, outErr, nreq, ndata, segNo, tokens, tracksSet, tpSpawned, inCb, dlWhat, pushed, joined, scen>>
 
 SpSpawnTp ==
   /\ pc["sp"] = "spawnTp"
   /\ alive' = alive \cup {"tp"} /\ tpSpawned' = TRUE
   /\ pc' = [pc EXCEPT !["sp"] = "pushT", !["tp"] = "recv"]
-  /\ UNCHANGED <<ret, userClosed, poolCancelled, result, outErr, nreq, ndata, queue, segNo, tokens, tracksSet, ended, inCb, dlWhat, scen>>
+  /\ UNCHANGED <<ret, userClosed, poolCancelled, result, outErr, nreq, ndata, queue, segNo, tokens, tracksSet, ended, inCb, dlWhat, pushed, joined, scen>>
 
 \* unbuffered queue of the track processor: rendezvous sp -> tp
 EntryHandoff ==
   /\ pc["sp"] = "pushT" /\ pc["tp"] = "recv"
-  /\ pc' = [pc EXCEPT !["sp"] = "join", !["tp"] = "pace"]
-  /\ UNCHANGED <<alive, ret, userClosed, poolCancelled, result, outErr, nreq, ndata, queue, segNo, tokens, tracksSet, ended, tpSpawned, inCb, dlWhat, scen>>
+  /\ pushed' = pushed + 1
+  /\ pc' = [pc EXCEPT !["sp"] = IF pushed + 1 = NPart THEN "join" ELSE "pushT", !["tp"] = "pace"]
+  /\ UNCHANGED <<alive, ret, userClosed, poolCancelled, result, outErr, nreq, ndata, queue, segNo, tokens, tracksSet, ended, tpSpawned, inCb, dlWhat, joined, scen>>
 
+\* joinTrackProcessors: one token per pushed part track; returns (nil) on ctx.Done, the next pull then sees the ctx
 SpJoin ==
   /\ pc["sp"] = "join"
-  /\ \/ tokens > 0 /\ tokens' = tokens - 1
-     \/ poolCancelled /\ tokens' = tokens          \* joinTrackProcessors returns nil on ctx.Done; the next pull sees the ctx
-  /\ pc' = [pc EXCEPT !["sp"] = "pull"]
+  /\ \/ /\ tokens > 0 /\ tokens' = tokens - 1
+        /\ joined' = IF joined + 1 = NPart THEN 0 ELSE joined + 1
+        /\ pushed' = IF joined + 1 = NPart THEN 0 ELSE pushed
+        /\ pc' = [pc EXCEPT !["sp"] = IF joined + 1 = NPart THEN "pull" ELSE "join"]
+     \/ /\ poolCancelled /\ tokens' = tokens /\ joined' = 0 /\ pushed' = 0
+        /\ pc' = [pc EXCEPT !["sp"] = "pull"]
   /\ UNCHANGED <<alive, ret, userClosed, poolCancelled, result, outErr, nreq, ndata, queue, segNo, tracksSet, ended, tpSpawned, inCb, dlWhat, scen>>
 
 (***************************************************************************)
@@ -220,27 +230,27 @@ SpJoin ==
 TpPace ==
   /\ pc["tp"] = "pace"
   /\ pc' = [pc EXCEPT !["tp"] = "cb"]
-  /\ UNCHANGED <<alive, ret, userClosed, poolCancelled, result, outErr, nreq, ndata, queue, segNo, tokens, tracksSet, ended, tpSpawned, inCb, dlWhat, scen>>
+  /\ UNCHANGED <<alive, ret, userClosed, poolCancelled, result, outErr, nreq, ndata, queue, segNo, tokens, tracksSet, ended, tpSpawned, inCb, dlWhat, pushed, joined, scen>>
 
 TpCallback ==
   /\ pc["tp"] = "cb"
   /\ inCb' = TRUE /\ ndata' = ndata + 1
   /\ userClosed' = (userClosed \/ CloseAt(<<"data", ndata + 1>>))
   /\ pc' = [pc EXCEPT !["tp"] = "cbRet"]
-  /\ UNCHANGED <<alive, ret, poolCancelled, result, outErr, nreq, queue, segNo, tokens, tracksSet, ended, tpSpawned, dlWhat, scen>>
+  /\ UNCHANGED <<alive, ret, poolCancelled, result, outErr, nreq, queue, segNo, tokens, tracksSet, ended, tpSpawned, dlWhat, pushed, joined, scen>>
 
 TpCallbackRet ==
   /\ pc["tp"] = "cbRet"
   /\ inCb' = FALSE
   /\ pc' = [pc EXCEPT !["tp"] = "signal"]
-  /\ UNCHANGED <<alive, ret, userClosed, poolCancelled, result, outErr, nreq, ndata, queue, segNo, tokens, tracksSet, ended, tpSpawned, dlWhat, scen>>
+  /\ UNCHANGED <<alive, ret, userClosed, poolCancelled, result, outErr, nreq, ndata, queue, segNo, tokens, tracksSet, ended, tpSpawned, dlWhat, pushed, joined, scen>>
 
 TpSignal ==
   /\ pc["tp"] = "signal"
-  /\ \/ tokens' = tokens + 1
+  /\ \/ (TokenCap = 0 \/ tokens < TokenCap) /\ tokens' = tokens + 1     \* buffered channel: blocks when full
      \/ poolCancelled /\ tokens' = tokens
   /\ pc' = [pc EXCEPT !["tp"] = "recv"]
-  /\ UNCHANGED <<alive, ret, userClosed, poolCancelled, result, outErr, nreq, ndata, queue, segNo, tracksSet, ended, tpSpawned, inCb, dlWhat, scen>>
+  /\ UNCHANGED <<alive, ret, userClosed, poolCancelled, result, outErr, nreq, ndata, queue, segNo, tracksSet, ended, tpSpawned, inCb, dlWhat, pushed, joined, scen>>
 
 (***************************************************************************)
 (* the ctx.Done() alternative of every blocking step                       *)
@@ -254,7 +264,7 @@ Blocking(g) ==
 Cancelled(g) ==
   /\ poolCancelled /\ Blocking(g)
   /\ Return(g, IF g = "tp" /\ pc[g] = "recv" THEN "" ELSE "terminated")
-  /\ UNCHANGED <<alive, userClosed, poolCancelled, result, outErr, nreq, ndata, queue, segNo, tokens, tracksSet, ended, tpSpawned, inCb, dlWhat, scen>>
+  /\ UNCHANGED <<alive, userClosed, poolCancelled, result, outErr, nreq, ndata, queue, segNo, tokens, tracksSet, ended, tpSpawned, inCb, dlWhat, pushed, joined, scen>>
 
 (***************************************************************************)
 (* routine pool                                                            *)
@@ -264,43 +274,43 @@ GReturn(g) ==
   /\ pc[g] = "ret"
   /\ IF ret[g] = "" THEN alive' = alive \ {g} /\ pc' = [pc EXCEPT ![g] = "exit"]
      ELSE alive' = alive /\ pc' = [pc EXCEPT ![g] = "sendErr"]
-  /\ UNCHANGED <<ret, userClosed, poolCancelled, result, outErr, nreq, ndata, queue, segNo, tokens, tracksSet, ended, tpSpawned, inCb, dlWhat, scen>>
+  /\ UNCHANGED <<ret, userClosed, poolCancelled, result, outErr, nreq, ndata, queue, segNo, tokens, tracksSet, ended, tpSpawned, inCb, dlWhat, pushed, joined, scen>>
 
 GSendErrCancelled(g) ==
   /\ pc[g] = "sendErr" /\ poolCancelled
   /\ alive' = alive \ {g} /\ pc' = [pc EXCEPT ![g] = "exit"]
-  /\ UNCHANGED <<ret, userClosed, poolCancelled, result, outErr, nreq, ndata, queue, segNo, tokens, tracksSet, ended, tpSpawned, inCb, dlWhat, scen>>
+  /\ UNCHANGED <<ret, userClosed, poolCancelled, result, outErr, nreq, ndata, queue, segNo, tokens, tracksSet, ended, tpSpawned, inCb, dlWhat, pushed, joined, scen>>
 
 RunRecvErr(g) ==
   /\ pc["run"] = "select" /\ pc[g] = "sendErr"
   /\ result' = ret[g]
   /\ alive' = alive \ {g}
   /\ pc' = [pc EXCEPT ![g] = "exit", !["run"] = "cancelE"]
-  /\ UNCHANGED <<ret, userClosed, poolCancelled, outErr, nreq, ndata, queue, segNo, tokens, tracksSet, ended, tpSpawned, inCb, dlWhat, scen>>
+  /\ UNCHANGED <<ret, userClosed, poolCancelled, outErr, nreq, ndata, queue, segNo, tokens, tracksSet, ended, tpSpawned, inCb, dlWhat, pushed, joined, scen>>
 
 RunSeeClose ==
   /\ pc["run"] = "select" /\ userClosed
   /\ result' = "terminated"
   /\ pc' = [pc EXCEPT !["run"] = "cancelC"]
-  /\ UNCHANGED <<alive, ret, userClosed, poolCancelled, outErr, nreq, ndata, queue, segNo, tokens, tracksSet, ended, tpSpawned, inCb, dlWhat, scen>>
+  /\ UNCHANGED <<alive, ret, userClosed, poolCancelled, outErr, nreq, ndata, queue, segNo, tokens, tracksSet, ended, tpSpawned, inCb, dlWhat, pushed, joined, scen>>
 
 RunCancel ==
   /\ pc["run"] \in {"cancelE", "cancelC"}
   /\ poolCancelled' = TRUE
   /\ pc' = [pc EXCEPT !["run"] = IF Variant = "errorNoJoin" /\ pc["run"] = "cancelE" THEN "yield" ELSE "join"]
-  /\ UNCHANGED <<alive, ret, userClosed, result, outErr, nreq, ndata, queue, segNo, tokens, tracksSet, ended, tpSpawned, inCb, dlWhat, scen>>
+  /\ UNCHANGED <<alive, ret, userClosed, result, outErr, nreq, ndata, queue, segNo, tokens, tracksSet, ended, tpSpawned, inCb, dlWhat, pushed, joined, scen>>
 
 RunJoin ==
   /\ pc["run"] = "join" /\ alive = {}
   /\ pc' = [pc EXCEPT !["run"] = "yield"]
-  /\ UNCHANGED <<alive, ret, userClosed, poolCancelled, result, outErr, nreq, ndata, queue, segNo, tokens, tracksSet, ended, tpSpawned, inCb, dlWhat, scen>>
+  /\ UNCHANGED <<alive, ret, userClosed, poolCancelled, result, outErr, nreq, ndata, queue, segNo, tokens, tracksSet, ended, tpSpawned, inCb, dlWhat, pushed, joined, scen>>
 
 RunYield ==
   /\ pc["run"] = "yield"
   /\ outErr' = Append(outErr, result)
   /\ userClosed' = (userClosed \/ CloseAt(<<"outcome", 0>>))
   /\ pc' = [pc EXCEPT !["run"] = "done"]
-  /\ UNCHANGED <<alive, ret, poolCancelled, result, nreq, ndata, queue, segNo, tokens, tracksSet, ended, tpSpawned, inCb, dlWhat, scen>>
+  /\ UNCHANGED <<alive, ret, poolCancelled, result, nreq, ndata, queue, segNo, tokens, tracksSet, ended, tpSpawned, inCb, dlWhat, pushed, joined, scen>>
 
 Next ==
   \/ \E g \in {"prim", "dl"} : HttpArrive(g) \/ HttpFail(g) \/ HttpStall(g) \/ HttpOK(g)
